@@ -44,6 +44,7 @@ type Env struct {
 	Step     int
 	OnCall   func(op string, failed bool)
 	Path     string // file of the file store, if any
+	Flaky    *FlakyStore // set when the engine runs on a store that can be told to reject the next write
 	// View, when set, returns the catalog that calls are observed against (the working
 	// catalog of an open session transaction); the committed catalog is then recorded as well
 	View  func() *lungo.Catalog
@@ -141,6 +142,12 @@ func (e *Env) Obs(cat *lungo.Catalog) (V, []interface{}, []interface{}) {
 			exp := -1
 			if cfg.Expiry > 0 {
 				exp = int(cfg.Expiry / time.Second)
+			}
+			for _, d := range ns.Indexes[n].List() {
+				if _, ok := ns.Documents.Index[d]; !ok {
+					e.finding("structure", "an index holds an entry that is not a document of its collection (a stale copy)", V{"ns": name, "index": n})
+					break
+				}
 			}
 			idx = append(idx, V{"name": n, "key": e.T.Val(*cfg.Key), "unique": cfg.Unique, "partial": partial, "exp": exp,
 				"list": e.docVals(ns.Indexes[n].List())})
@@ -739,6 +746,17 @@ func (e *Env) DropIndex(ns, name string) Call {
 	e.T.Add(name)
 	return Call{Op: "dropIndex", NS: ns, A: V{"name": name}, Run: func(e *Env) V {
 		_, err := e.coll(ns).Indexes().DropOne(e.Ctx, name)
+		if err != nil {
+			return errRes(err)
+		}
+		return baseRes()
+	}}
+}
+
+// DropIndexByKey ...
+func (e *Env) DropIndexByKey(ns string, key bson.D) Call {
+	return Call{Op: "dropIndexByKey", NS: ns, A: V{"key": e.docArg(key)}, Run: func(e *Env) V {
+		_, err := e.coll(ns).Indexes().DropOneWithKey(e.Ctx, key)
 		if err != nil {
 			return errRes(err)
 		}
